@@ -85,8 +85,8 @@ def worker_init():
                     fn(d)
                 except yaml.YAMLError as e:
                     str(e)
-                except ValueError:
-                    pass          # !!python/complex with malformed text (outside C04's statement, see check_doc)
+                except Exception:
+                    pass          # the warm-up must never fail (e.g. !!python/complex with malformed text raises ValueError)
     MON.learn(run)
     NAMES = G.module_names()
 
